@@ -1,6 +1,6 @@
 (* C18 — property theorems only (each closed by `exact <lemma>`, followed by Print Assumptions). *)
 From Coq Require Import List NArith Bool.
-From MW Require Import C16.Model C16.Proofs C17.Proofs C17.ProofsOrder C18.Proofs C18.ProofsIds C18.ProofsInv C18.ProofsTimeout.
+From MW Require Import C16.Model C16.Proofs C17.Proofs C17.ProofsOrder C18.Proofs C18.ProofsIds C18.ProofsInv C18.ProofsTimeout C17.ProofsLive C18.BisimBase C18.BisimRequeue C18.Bisim.
 Import ListNotations.
 Open Scope N_scope.
 
@@ -10,7 +10,7 @@ Open Scope N_scope.
    (ids are not reused), no connection, no waiter, nothing pending in the hub; and an unfinished job
    - including one that was in a worker's running_jobs or in a mailbox - is queued in its own channel
    under its (priority, serial) key and is on the timeout heap with its original deadline. *)
-Theorem C18_restart_preserves_partial : forall s i x j,
+Theorem C18_restart_preserves : forall s i x j,
   id_lookup (s_ids s) i = Some x -> getjob (s_jobs s) x = Some j ->
   let s' := restart s in
   In j (s_jobs s') /\ s_count s' = s_count s /\ s_conns s' = [] /\ s_waiters s' = [] /\ s_hub s' = [] /\
@@ -18,7 +18,7 @@ Theorem C18_restart_preserves_partial : forall s i x j,
      In (j_prio j, j_serial j) (qget (s_queues s') (j_chan j)) /\
      In (j_timeout j, (j_prio j, j_serial j)) (s_tq s')).
 Proof. exact restart_preserves. Qed.
-Print Assumptions C18_restart_preserves_partial.
+Print Assumptions C18_restart_preserves.
 
 (* the whole restarted state: counter, job table = the saved list, everything else empty *)
 Theorem C18_restore_state : forall now sv,
@@ -167,18 +167,37 @@ Example C18_example :
 Proof. vm_compute. repeat split. Qed.
 Print Assumptions C18_example.
 
-(* NOT PROVED (full statement of DESIGN's C18_restart_bisim): for all h1 and all h2 that use only connection ids
-   not used in h1,
-     obs (run h2 (restart (run h1 init))) = obs (run h2 (requeue_running (run h1 init)))
-   where requeue_running = Disconnect of every live connection, RunLoop, pending random.choice answers discarded, and
-   obs = outputs of h2 up to the outcome counters in Stats.  What is missing is a simulation relation between the two
-   states and its preservation by all 15 ops: they differ in unobservable parts only - job objects no longer in id2job
-   (finished, by C16's invariant) are absent from the restarted job table but may still sit as stale entries in the
-   other one's heaps, timeoutq holds one entry per re-queue there, dead connection records, counters reset.  What IS
-   proved: the restarted state of every reachable state satisfies all invariants (C18_restart_satisfies_invariant), so
-   every C16/C17 theorem holds for continuations after restarts (C18_*_with_restarts); the record of every registered
-   job is restored verbatim, unfinished ones queued and on the timeout heap (C18_restart_preserves_partial); pulls
-   after the restart come in the pre-restart (priority, serial) order (C18_pullable_again_in_order); ids are not
-   reused (C18_ids_not_reused); waits on finished jobs return at once (C18_wait_immediate).  The equality of
-   continuations itself is covered by the differential run (model with restart vs pickle round trip of the real db at
-   every position) and the monitors. *)
+(* C18_restart_bisim (DESIGN's full statement): continuations after a restart behave like continuations after "all
+   workers disconnected, nobody waiting".  For EVERY state s reachable with the full alphabet and restarts at arbitrary
+   positions, and every continuation h2 that does not re-use a connection id of s:
+       outputs of h2 from restore (save s)   ~   outputs of h2 from requeue_all s
+   requeue_all s (BisimRequeue.v) = the callbacks still queued in the hub are lost (set_hub []), every connection is
+   disconnected, RunLoop, RunLoop (so every job a worker held, or that sat in a hand-off mailbox, is back in its queue;
+   every waiting client is gone), pending random.choice answers discarded.  ~ = Forall2 obs_eq: equal outputs, where
+   of a Stats answer only count, numjobs and the per-channel busy numbers are compared (outcome counters restart from
+   zero; channel2q keeps keys of empty queues).
+   Why the hub is emptied in the reference: a finish notification that was queued but not delivered is lost by a restart;
+   delivering it first lets a waiter of a DROPPED job fetch it and delete its id (A 0 0 - -;W 1 a1;T 200;Y a1, then I a1:
+   the restart still knows a1).  Found by the bounded model check ocaml/c16/bisim.ml, which checks this same statement
+   exhaustively on the extracted model on every run (vt/harness/c16_bisim.py).
+   Proof: simulation relation Sim (BisimStep.v) preserved by all 15 ops with obs_eq outputs (sim_step), established
+   between restart s and requeue_all s (sim_init); new single-state invariants TE (timeout heap entries are sound) and
+   XI (unique channel keys, unique connection ids, dead connections hold nothing), for all ops and restarts. *)
+Theorem C18_restart_bisim : forall h h2, let s := rrun h init in
+  Forall (fresh_op (map c_id (s_conns s))) h2 ->
+  Forall2 obs_eq (outs h2 (restart s)) (outs h2 (requeue_all s)).
+Proof. exact restart_bisim. Qed.
+Print Assumptions C18_restart_bisim.
+
+(* Non-vacuity: worker 1 holds job 1, puller 2 has job 2 in its mailbox (wake-up still in the hub), client 3 waits for
+   job 1, job 3 queued; fresh connections 10..13 pull: both sides deliver 2, 1, 3 in that order. *)
+Example C18_restart_bisim_example :
+  let s := rrun bisim_h init in
+  map (fun c => (c_id c, c_st c, map snd (c_run c))) (s_conns s) = [(1, Idle, [1]); (2, BPull [0] (Some 2), []); (3, BWait 1, [])] /\
+  s_hub s = [EvNotify 2] /\
+  Forall (fresh_op (map c_id (s_conns s))) bisim_h2 /\
+  map delivered (outs bisim_h2 (restart s)) = [Some (10, 2); Some (11, 1); Some (12, 3); None; None; None; None] /\
+  map delivered (outs bisim_h2 (requeue_all s)) = [Some (10, 2); Some (11, 1); Some (12, 3); None; None; None; None] /\
+  Forall2 obs_eq (outs bisim_h2 (restart s)) (outs bisim_h2 (requeue_all s)).
+Proof. exact restart_bisim_example. Qed.
+Print Assumptions C18_restart_bisim_example.
